@@ -128,7 +128,7 @@ impl Prop for C18 {
         ctx.tier.pick(128, 1_000)
     }
     fn rule(&self) -> &'static str {
-        "real binary, files mode: batches of 20-120 (quick) / 20-400 (thorough) files with heavy-tailed sizes (1 byte to ~150 KiB), mixed BOM encodings (none, UTF-8, UTF-16LE/BE), duplicated names in sub-directories, names that differ only in letter case, failing subsets (missing, undecodable, directory named *.pas) x RAYON_NUM_THREADS in {1,2,3,8,16,64} x PASFMT_VERIF_DELAY_SEED (hook: deterministic per-file delays before read and before write move the work-stealing decisions); oracle: every file byte-equal to the result of formatting it alone with the same binary; failing members untouched, others unaffected; exit status != 0 iff some member failed. The schedule is observed through the hook trace (thread, order, reused buffer capacity): evidence counts distinct schedules and shorter-after-longer buffer reuses. Non-trivial: batch in which some worker handled >= 3 files of different lengths; distinct by schedule signature."
+        "real binary, files mode (and, one batch in three, stdout mode first: the batch output must consist of exactly the sections the members print alone, each contiguous): batches of 20-120 (quick) / 20-400 (thorough) files with heavy-tailed sizes (1 byte to ~150 KiB), mixed BOM encodings (none, UTF-8, UTF-16LE/BE), duplicated names in sub-directories, names that differ only in letter case, failing subsets (missing, undecodable, directory named *.pas) x RAYON_NUM_THREADS in {1,2,3,8,16,64} x PASFMT_VERIF_DELAY_SEED (hook: deterministic per-file delays before read and before write move the work-stealing decisions); oracle: every file byte-equal to the result of formatting it alone with the same binary; failing members untouched, others unaffected; exit status != 0 iff some member failed. The schedule is observed through the hook trace (thread, order, reused buffer capacity): evidence counts distinct schedules and shorter-after-longer buffer reuses. Non-trivial: batch in which some worker handled >= 3 files of different lengths; distinct by schedule signature."
     }
     fn floor(&self, tier: Tier) -> u64 {
         tier.pick(20, 400)
@@ -265,6 +265,66 @@ impl Prop for C18 {
             cache.insert(h, (after.clone(), r.ok()));
             reference.insert(m.rel.clone(), (after, r.ok()));
         }
+        // ---- stdout mode (one batch in three): the batch prints one section per file, in any order; every
+        // section must be the contiguous bytes the file prints alone and nothing else may be printed.
+        // Runs first: stdout mode leaves batch_root as written above.
+        if rng.chance(1, 3) {
+            let so_threads = *rng.pick(&[2usize, 3, 8, 16]);
+            let mut sections: Vec<(String, Vec<u8>)> = vec![];
+            for m in &members {
+                let mut a = cfg.to_cli_args();
+                a.extend(["--mode".to_string(), "stdout".to_string(), m.rel.clone()]);
+                out.evals += 1;
+                let r = cli::run(Invocation { bin: &ctx.cli_bin, args: a, cwd: &batch_root, stdin: None, env: vec![("RAYON_NUM_THREADS".into(), "1".into())], as_nobody: false });
+                if r.timed_out {
+                    out.count("batch_run_inconclusive");
+                    return out;
+                }
+                sections.push((m.rel.clone(), r.stdout));
+            }
+            let mut a = cfg.to_cli_args();
+            a.extend(["--mode".to_string(), "stdout".to_string()]);
+            for m in &members {
+                a.push(m.rel.clone());
+            }
+            out.evals += 1;
+            let r = cli::run(Invocation {
+                bin: &ctx.cli_bin,
+                args: a,
+                cwd: &batch_root,
+                stdin: None,
+                env: vec![("RAYON_NUM_THREADS".into(), so_threads.to_string()), ("PASFMT_VERIF_DELAY_SEED".into(), rng.below(1_000_000).to_string()), ("PASFMT_VERIF_DELAY_MAX_US".into(), rng.pick(&[0u32, 200, 2000]).to_string())],
+                as_nobody: false,
+            });
+            if r.timed_out || (r.code.is_none() && r.signal.is_none()) {
+                out.count("batch_run_inconclusive");
+                return out;
+            }
+            out.count("stdout_mode_batches");
+            let total: usize = sections.iter().map(|s| s.1.len()).sum();
+            let mut bad: Option<String> = None;
+            if r.stdout.len() != total {
+                bad = Some(format!("batch printed {} bytes, the members alone print {} bytes in total", r.stdout.len(), total));
+            }
+            for (rel, sec) in &sections {
+                out.count("stdout_sections_compared");
+                if sec.len() > 8192 {
+                    out.count("stdout_sections_over_8k");
+                }
+                if bad.is_none() && !sec.is_empty() && !contains_bytes(&r.stdout, sec) {
+                    bad = Some(format!("the {} bytes that {rel} prints alone do not appear contiguously in the batch output", sec.len()));
+                }
+            }
+            if let Some(b) = bad {
+                out.violate("C18", "stdout-batch-differs-from-solo", format!("[--mode stdout, {} threads, {} files] {b}", so_threads, members.len()), "", Some(&cfg));
+            }
+            for m in &members {
+                if m.fail.is_none() && std::fs::read(batch_root.join(&m.rel)).ok().as_deref() != Some(&m.bytes[..]) {
+                    out.violate("C18", "stdout-mode-modified-file", format!("--mode stdout changed {}", m.rel), "", Some(&cfg));
+                    return out;
+                }
+            }
+        }
         // ---- the batch, with schedule trace and perturbation
         let threads = *rng.pick(&[1usize, 2, 3, 8, 16, 64]);
         let delay_seed = rng.below(1_000_000);
@@ -396,4 +456,25 @@ impl Prop for C18 {
         }
         out
     }
+}
+
+fn contains_bytes(hay: &[u8], needle: &[u8]) -> bool {
+    if needle.len() > hay.len() {
+        return false;
+    }
+    let first = needle[0];
+    let mut i = 0;
+    while i + needle.len() <= hay.len() {
+        match hay[i..=hay.len() - needle.len()].iter().position(|&b| b == first) {
+            None => return false,
+            Some(k) => {
+                i += k;
+                if &hay[i..i + needle.len()] == needle {
+                    return true;
+                }
+                i += 1;
+            }
+        }
+    }
+    false
 }
